@@ -496,3 +496,55 @@ pub fn replay(path: &str, out: &mut impl std::io::Write) {
     }
 }
 
+
+/// Exhaustive small-scope enumeration: EVERY sequence of `depth` operations over a small alphabet
+/// (3 keys x 3 value sizes, the limit set so that two large or three small entries fit), each run as its
+/// own trace from an empty cache. alphabet 0 = full (about 35 operations), 1 = reduced (about 14).
+pub fn exhaust(depth: usize, alphabet: u8, hk: u8, out: &mut impl std::io::Write) -> u64 {
+    let e0 = lru_mem::entry_size(&VKey::probe(0), &VVal { tok: 0, tag: 0, heap: 0 });
+    let sizes: [usize; 3] = [0, 8, e0 + 8];
+    let max0 = 3 * e0 + 16;                       // three small entries fit exactly with 16 to spare; a large one takes two slots
+    let mut ops: Vec<Op> = Vec::new();
+    for k in 0..3u32 {
+        for (i, vh) in sizes.iter().enumerate() { if alphabet == 0 || i != 1 { ops.push(Op::Insert(k, 0, 0, 0, 0, *vh)); } }
+        ops.push(Op::Get(k));
+        if alphabet == 0 { ops.push(Op::Remove(k)); ops.push(Op::Peek(k)); ops.push(Op::TryInsert(k, 0, 0, 0, 0, 8)); }
+        ops.push(Op::Mutate(k, 0, e0 + 8));
+        if alphabet == 0 { ops.push(Op::Mutate(k, 0, 0)); }
+    }
+    ops.push(Op::RemoveLru); ops.push(Op::SetMax(2 * e0)); 
+    if alphabet == 0 {
+        ops.push(Op::GetLru); ops.push(Op::RemoveMru); ops.push(Op::SetMax(max0)); ops.push(Op::Retain(0b101)); ops.push(Op::Iter(0, "FBB".into()));
+        ops.push(Op::Drain("F".into(), false)); ops.push(Op::Clear); ops.push(Op::ShrinkToFit); ops.push(Op::Reserve(5)); ops.push(Op::Mutate(1, 0, 4 * e0));
+    }
+    let n = ops.len();
+    let total = (n as u64).pow(depth as u32);
+    let mut idx = vec![0usize; depth];
+    let mut count = 0u64;
+    loop {
+        let mut w = World { slots: vec![None, None, None], universe: 3, cfg: (max0, 0, hk), log: Vec::new() };
+        new_cache(&mut w, 0, max0, 0, hk, out);
+        let mut tok = 10u64;
+        for d in 0..depth {
+            let op = match &ops[idx[d]] {
+                Op::Insert(k, _, _, _, _, vh) => { tok += 2; Op::Insert(*k, tok - 1, 0, tok, tok, *vh) }
+                Op::TryInsert(k, _, _, _, _, vh) => { tok += 2; Op::TryInsert(*k, tok - 1, 0, tok, tok, *vh) }
+                Op::Mutate(k, _, vh) => { tok += 1; Op::Mutate(*k, tok, *vh) }
+                o => o.clone(),
+            };
+            if !do_step(&mut w, 0, &op, out) { break; }
+        }
+        finish(&mut w, out, false);
+        count += 1;
+        // odometer
+        let mut d = depth;
+        loop {
+            if d == 0 { return count; }
+            d -= 1;
+            idx[d] += 1;
+            if idx[d] < n { break; }
+            idx[d] = 0;
+        }
+        if count >= total { return count; }
+    }
+}
